@@ -14,6 +14,26 @@ CHECKS = {
          "DESIGN.md 4/C02",
          "Every program with captures/back-references of <= n nodes (captures under alternation, optional and repeated groups incl. min>=1 loops, inline subroutines, calls, pattern globals) crossed with every text over {a,b} up to length 5: the spans and the complete set of string variables of every reported match must equal the bindings of the successful path computed by the reference matcher, whose environment is persistent (an abandoned path cannot leak by construction).",
          "Trusted: reference matcher vmc/ref.go. Named-loop maps are not compared here."),
+ "C03": ("exploration", "runtime monitor recomputing every located field of every match over exhaustive program x text enumerations",
+         "DESIGN.md 4/C03",
+         "Every match reported by every program of the layout driver D6 (<= 3 nodes over newline-rich atoms, whole line/word/file, anchors), of D1/D4 and of fixed regex-literal, named-loop and recursion programs, under six amount clauses, as find and replace, on every text over {a,' ',\\n} up to length 4-5, is re-derived from the input bytes: bounds, value, order, non-overlap, consecutive numbering, 1-based line and column of both ends, variables are substrings.",
+         "ASCII inputs. Acceptance of programs is C08/C15's subject; rejected sources are skipped and counted."),
+ "C04": ("exploration", "metamorphic full-product enumeration: every amount clause vs the slice of `find all`",
+         "DESIGN.md 4/C04",
+         "For every body (all D1 programs <= 3 nodes, overlap-prone literals, nullable, multi-line and capture bodies), every text up to length 5-6 and EVERY clause skip s / skip s take t / top n / take n / last n with s,t,n in 0..maxlen+1, as find and as replace, the result must be exactly the named slice of the `find all` result, match records compared field by field including MatchNumber.",
+         "`last 0` excluded (undocumented). A itself is validated by C01/C03."),
+ "C05": ("exploration", "bounded-exhaustive enumeration of `with` lists x bodies x texts against a replacement computed from the match record",
+         "DESIGN.md 4/C05",
+         "All `with` lists of length <= 3 over 17 item kinds (strings, captures, all 8 built-ins, an undefined name, 4 transforms) x 10 bodies whose captures differ between matches x all texts over {a,b,\\n} up to length 3-4: Replacement must equal the in-order concatenation computed independently from the same match's record, and matches must equal those of `find all`.",
+         "The four transforms are fixed programs; the general evaluator is C11's subject."),
+ "C10": ("model_checking", "exhaustive exploration of the deterministic VM's configuration sequence under a step monitor (hook H1)",
+         "DESIGN.md 4/C10",
+         "Every nullable-body program of <= 4 (thorough 5) nodes, guarded recursion behind every consuming primitive, and fixed nested / named-loop / regex programs are run to completion on every text over {a,\\n} up to length 4 with the VM's executed instructions counted by the in-repo hook; exceeding 5e6 instructions (about 17x the largest legitimate count in scope, which is reported) or 20 s without progress is non-termination.",
+         "Bounded: termination is decided as 'within the step/time budget' on the enumerated scope, not proved for larger programs."),
+ "C13": ("model_checking", "differential enumeration of naming variants + explicit enumeration of Compile/Run histories on live objects with a bytecode state key",
+         "DESIGN.md 4/C13",
+         "(a) every capture-free body x 8 contexts x 5 naming variants (+ nested definitions referenced twice, inline subroutine inside a stored pattern, three levels) must report the spans of the written-out body on every text; (b) every 1-3 command source over 6 commands sharing 2 definitions equals the concatenation of its commands alone; (c) all Compile/Run histories to depth 3 (thorough 4) over 7 sources x 3 texts: each operation returns what it returns first in a fresh process, recompilation yields identical bytecode modulo loop ids, and no operation changes any live program's bytecode.",
+         "Reflection reads *Vore's unexported bytecode for the state key (degrades, and says so, if the field disappears)."),
 }
 
 PENDING_REASON = "check not built yet in this round of work (framework is being extended property by property; see DESIGN.md section 7)"
